@@ -9,7 +9,7 @@ from .c15 import ref_py
 
 ID = 'C16'
 LEVEL = 'model_checking'
-RULE = ('every atom text of length <= 3 [thorough: 4] over the 17 characters {a Z 0 _ space \' " newline # % ( ) , . : é 五} (quoted when '
+RULE = ('every atom text of length <= 3 [thorough: 4] over the 19 characters {a Z 0 _ space \' " newline # % ( ) , . : é 五 ﬁ(ligature) ％(full-width)} (quoted when '
         'the lexer requires it, also quoted when it does not), and every term of depth <= 2 over {6 atom texts, 0 7 123, '
         'f/1, g/2, [] [t] [t,u] [t|V] [t,u|V], _, named variables} - each literal compiled as a fact argument, as a head '
         'argument of a rule, and as a body-goal argument, then (1) read back through a query: structure equals the '
@@ -21,7 +21,7 @@ RULE = ('every atom text of length <= 3 [thorough: 4] over the 17 characters {a 
 ASSUMPTIONS = ['the generator starts from a TERM, prints it in the documented syntax (\' written as \\\', no other '
                'backslashes) and knows the value to_python must return (RefLiteral)',
                'to_python of partial lists is unspecified and observed structurally only']
-CHARS = ['a', 'Z', '0', '_', ' ', "'", '"', '\n', '#', '%', '(', ')', ',', '.', ':', 'é', '五']
+CHARS = ['a', 'Z', '0', '_', ' ', "'", '"', '\n', '#', '%', '(', ')', ',', '.', ':', 'é', '五', '\ufb01', '\uff05']
 BATCH = 30
 
 
